@@ -1,7 +1,7 @@
 SPECIFICATION Spec
 CONSTANTS MaxOps = 24
-Widths = {1, 2, 127, 128, 130}
-Bursts = {3, 127, 129, 300}
+Widths = {1, 2, 127, 128, 130, 141, 257, 300, 600}
+Bursts = {3, 39, 127, 129, 300}
 Fam = {"stack", "frame", "global", "closure", "clone"}
 Deep = FALSE
 INVARIANT FramesDistinct
